@@ -6,68 +6,69 @@ import IastModel.Lemmas.ErVisitMain
 -/
 namespace IastModel
 open Node
+variable {cfg : Config}
 
 /-- a block statement fit for the block visitor theorem -/
-def Qb (b : Node) : Bool := srcOk b && noOpt b
+def Qb (cfg : Config) (b : Node) : Bool := srcOk b && noOpt cfg b
 
-def bq (k : Node) : Bool := !isBlockNode k || Qb k
+def bq (cfg : Config) (k : Node) : Bool := !isBlockNode k || Qb cfg k
 
 /-- every block statement anywhere in the tree is a well-formed source block without optional chaining -/
-def blkOk (n : Node) : Bool := Node.all bq n
-def blkOkL (l : List Node) : Bool := l.all blkOk
+def blkOk (cfg : Config) (n : Node) : Bool := Node.all (bq cfg) n
+def blkOkL (cfg : Config) (l : List Node) : Bool := l.all (blkOk cfg)
 
-theorem blkOk_eq (n : Node) : blkOk n = (bq n && blkOkL n.kids) := by
+theorem blkOk_eq (n : Node) : blkOk cfg n = (bq cfg n && blkOkL cfg n.kids) := by
   unfold blkOk blkOkL; rw [Node.all_eq]; rfl
 
-@[simp] theorem blkOkL_nil : blkOkL [] = true := rfl
-@[simp] theorem blkOkL_cons (x : Node) (xs : List Node) : blkOkL (x :: xs) = (blkOk x && blkOkL xs) := by simp [blkOkL]
-@[simp] theorem blkOkL_append (xs ys : List Node) : blkOkL (xs ++ ys) = (blkOkL xs && blkOkL ys) := by simp [blkOkL]
+@[simp] theorem blkOkL_nil : blkOkL cfg [] = true := rfl
+@[simp] theorem blkOkL_cons (x : Node) (xs : List Node) : blkOkL cfg (x :: xs) = (blkOk cfg x && blkOkL cfg xs) := by simp [blkOkL]
+@[simp] theorem blkOkL_append (xs ys : List Node) : blkOkL cfg (xs ++ ys) = (blkOkL cfg xs && blkOkL cfg ys) := by simp [blkOkL]
 
-theorem blkOk_nb (n : Node) (h : isBlockNode n = false) : blkOk n = blkOkL n.kids := by
+theorem blkOk_nb (n : Node) (h : isBlockNode n = false) : blkOk cfg n = blkOkL cfg n.kids := by
   rw [blkOk_eq]; simp [bq, h]
 
-@[simp] theorem blkOk_atom (s : String) : blkOk (.atom s) = true := by rw [blkOk_nb _ rfl]; rfl
-@[simp] theorem blkOk_lit (k v r : String) (sp : Span) : blkOk (.lit k v r sp) = true := by rw [blkOk_nb _ rfl]; rfl
-@[simp] theorem blkOk_ident (nm : Name) (sp : Span) : blkOk (.ident nm sp) = true := by rw [blkOk_nb _ rfl]; rfl
-@[simp] theorem blkOk_pname (nm : String) (sp : Span) : blkOk (.pname nm sp) = true := by rw [blkOk_nb _ rfl]; rfl
-@[simp] theorem blkOk_arr (xs : List Node) : blkOk (.arr xs) = blkOkL xs := by rw [blkOk_nb _ rfl]; rfl
-@[simp] theorem blkOk_obj (ns : List String) (vs : List Node) : blkOk (.obj ns vs) = blkOkL vs := by rw [blkOk_nb _ rfl]; rfl
-@[simp] theorem blkOk_other (k : String) (sp : Span) (ns : List String) (vs : List Node) : blkOk (.other k sp ns vs) = blkOkL vs := by
+@[simp] theorem blkOk_atom (s : String) : blkOk cfg (.atom s) = true := by rw [blkOk_nb _ rfl]; rfl
+@[simp] theorem blkOk_lit (k v r : String) (sp : Span) : blkOk cfg (.lit k v r sp) = true := by rw [blkOk_nb _ rfl]; rfl
+@[simp] theorem blkOk_ident (nm : Name) (sp : Span) : blkOk cfg (.ident nm sp) = true := by rw [blkOk_nb _ rfl]; rfl
+@[simp] theorem blkOk_pname (nm : String) (sp : Span) : blkOk cfg (.pname nm sp) = true := by rw [blkOk_nb _ rfl]; rfl
+@[simp] theorem blkOk_arr (xs : List Node) : blkOk cfg (.arr xs) = blkOkL cfg xs := by rw [blkOk_nb _ rfl]; rfl
+@[simp] theorem blkOk_obj (ns : List String) (vs : List Node) : blkOk cfg (.obj ns vs) = blkOkL cfg vs := by rw [blkOk_nb _ rfl]; rfl
+@[simp] theorem blkOk_other (k : String) (sp : Span) (ns : List String) (vs : List Node) : blkOk cfg (.other k sp ns vs) = blkOkL cfg vs := by
   rw [blkOk_nb _ rfl]; rfl
-@[simp] theorem blkOk_bin (op : String) (l r : Node) (sp : Span) : blkOk (.bin op l r sp) = (blkOk l && blkOk r) := by
+@[simp] theorem blkOk_bin (op : String) (l r : Node) (sp : Span) : blkOk cfg (.bin op l r sp) = (blkOk cfg l && blkOk cfg r) := by
   rw [blkOk_nb _ rfl]; simp [kids]
-@[simp] theorem blkOk_assign (op : String) (l r : Node) (sp : Span) : blkOk (.assign op l r sp) = (blkOk l && blkOk r) := by
+@[simp] theorem blkOk_assign (op : String) (l r : Node) (sp : Span) : blkOk cfg (.assign op l r sp) = (blkOk cfg l && blkOk cfg r) := by
   rw [blkOk_nb _ rfl]; simp [kids]
-@[simp] theorem blkOk_tpl (es qs : List Node) (sp : Span) : blkOk (.tpl es qs sp) = (blkOkL es && blkOkL qs) := by
+@[simp] theorem blkOk_tpl (es qs : List Node) (sp : Span) : blkOk cfg (.tpl es qs sp) = (blkOkL cfg es && blkOkL cfg qs) := by
   rw [blkOk_nb _ rfl]; simp [kids]
-@[simp] theorem blkOk_call (c : Node) (as : List Node) (sp : Span) : blkOk (.call c as sp) = (blkOk c && blkOkL as) := by
+@[simp] theorem blkOk_call (c : Node) (as : List Node) (sp : Span) : blkOk cfg (.call c as sp) = (blkOk cfg c && blkOkL cfg as) := by
   rw [blkOk_nb _ rfl]; simp [kids]
-@[simp] theorem blkOk_arg (s : Option Span) (e : Node) : blkOk (.arg s e) = blkOk e := by
+@[simp] theorem blkOk_arg (s : Option Span) (e : Node) : blkOk cfg (.arg s e) = blkOk cfg e := by
   rw [blkOk_nb _ rfl]; simp [kids]
-@[simp] theorem blkOk_member (o p : Node) (sp : Span) : blkOk (.member o p sp) = (blkOk o && blkOk p) := by
+@[simp] theorem blkOk_member (o p : Node) (sp : Span) : blkOk cfg (.member o p sp) = (blkOk cfg o && blkOk cfg p) := by
   rw [blkOk_nb _ rfl]; simp [kids]
-@[simp] theorem blkOk_unary (op : String) (a : Node) (sp : Span) : blkOk (.unary op a sp) = blkOk a := by
+@[simp] theorem blkOk_unary (op : String) (a : Node) (sp : Span) : blkOk cfg (.unary op a sp) = blkOk cfg a := by
   rw [blkOk_nb _ rfl]; simp [kids]
-@[simp] theorem blkOk_arrow (ps : List Node) (b : Node) (a : String) (sp : Span) : blkOk (.arrow ps b a sp) = (blkOkL ps && blkOk b) := by
+@[simp] theorem blkOk_arrow (ps : List Node) (b : Node) (a : String) (sp : Span) : blkOk cfg (.arrow ps b a sp) = (blkOkL cfg ps && blkOk cfg b) := by
   rw [blkOk_nb _ rfl]; simp [kids]
-@[simp] theorem blkOk_paren (e : Node) (sp : Span) : blkOk (.paren e sp) = blkOk e := by
+@[simp] theorem blkOk_paren (e : Node) (sp : Span) : blkOk cfg (.paren e sp) = blkOk cfg e := by
   rw [blkOk_nb _ rfl]; simp [kids]
-@[simp] theorem blkOk_seq (es : List Node) (sp : Span) : blkOk (.seq es sp) = blkOkL es := by rw [blkOk_nb _ rfl]; rfl
-@[simp] theorem blkOk_array (es : List Node) (sp : Span) : blkOk (.array es sp) = blkOkL es := by rw [blkOk_nb _ rfl]; rfl
-@[simp] theorem blkOk_cond (t c a : Node) (sp : Span) : blkOk (.cond t c a sp) = (blkOk t && blkOk c && blkOk a) := by
+@[simp] theorem blkOk_seq (es : List Node) (sp : Span) : blkOk cfg (.seq es sp) = blkOkL cfg es := by rw [blkOk_nb _ rfl]; rfl
+@[simp] theorem blkOk_array (es : List Node) (sp : Span) : blkOk cfg (.array es sp) = blkOkL cfg es := by rw [blkOk_nb _ rfl]; rfl
+@[simp] theorem blkOk_cond (t c a : Node) (sp : Span) : blkOk cfg (.cond t c a sp) = (blkOk cfg t && blkOk cfg c && blkOk cfg a) := by
   rw [blkOk_nb _ rfl]; simp [kids, Bool.and_assoc]
 
-theorem blkOk_kids {n : Node} (h : blkOk n = true) : ∀ k ∈ n.kids, blkOk k = true := by
+theorem blkOk_kids {n : Node} (h : blkOk cfg n = true) : ∀ k ∈ n.kids, blkOk cfg k = true := by
   rw [blkOk_eq, Bool.and_eq_true] at h
   intro k hk
   exact List.all_eq_true.mp h.2 k hk
 
-theorem blkOkL_mem {l : List Node} (h : blkOkL l = true) : ∀ k ∈ l, blkOk k = true := List.all_eq_true.mp h
+theorem blkOkL_mem {l : List Node} (h : blkOkL cfg l = true) : ∀ k ∈ l, blkOk cfg k = true := List.all_eq_true.mp h
 
-theorem blkOkL_of {l : List Node} (h : ∀ k ∈ l, blkOk k = true) : blkOkL l = true := List.all_eq_true.mpr h
+theorem blkOkL_of {l : List Node} (h : ∀ k ∈ l, blkOk cfg k = true) : blkOkL cfg l = true := List.all_eq_true.mpr h
 
 /-- a well-formed source tree without optional chaining has only such blocks -/
-theorem blkOk_src : ∀ n : Node, srcOk n = true → noOpt n = true → blkOk n = true := by
+theorem blkOk_src : ∀ n : Node, srcOk n = true → noOpt cfg n = true → blkOk cfg n = true := by
   apply Node.ind
   intro n ih hs hn
   rw [blkOk_eq, Bool.and_eq_true]
@@ -75,53 +76,53 @@ theorem blkOk_src : ∀ n : Node, srcOk n = true → noOpt n = true → blkOk n 
   simp [bq, Qb, hs, hn]
 
 theorem blkOk_withKids (n : Node) (ks : List Node) (hb : isBlockNode n = false) (hl : ks.length = n.kids.length)
-    (hk : blkOkL ks = true) : blkOk (n.withKids ks) = true := by
+    (hk : blkOkL cfg ks = true) : blkOk cfg (n.withKids ks) = true := by
   have hb' : isBlockNode (n.withKids ks) = false := by cases n <;> first | rfl | simp [isBlockNode] at hb
   rw [blkOk_nb _ hb', Node.kids_withKids n ks hl]
   exact hk
 
 /-! ### the pieces the transforms build -/
 
-@[simp] theorem blkOk_tempIdent (k : Nat) : blkOk (tempIdent k) = true := by simp [tempIdent]
-@[simp] theorem blkOk_assignRight (e : Node) (k : IdentKind) : blkOk (assignRight e k) = blkOk e := by
+@[simp] theorem blkOk_tempIdent (k : Nat) : blkOk cfg (tempIdent k) = true := by simp [tempIdent]
+@[simp] theorem blkOk_assignRight (e : Node) (k : IdentKind) : blkOk cfg (assignRight e k) = blkOk cfg e := by
   cases k <;> simp [assignRight]
-@[simp] theorem blkOk_exprOrSpread (e : Node) (k : IdentKind) : blkOk (exprOrSpread e k) = blkOk e := by
+@[simp] theorem blkOk_exprOrSpread (e : Node) (k : IdentKind) : blkOk cfg (exprOrSpread e k) = blkOk cfg e := by
   cases k <;> simp [exprOrSpread]
-@[simp] theorem blkOk_voidZero : blkOk voidZero = true := by simp [voidZero]
-@[simp] theorem blkOk_ddCallee (m : String) (sp : Span) : blkOk (ddCallee m sp) = true := by simp [ddCallee]
+@[simp] theorem blkOk_voidZero : blkOk cfg voidZero = true := by simp [voidZero]
+@[simp] theorem blkOk_ddCallee (m : String) (sp : Span) : blkOk cfg (ddCallee m sp) = true := by simp [ddCallee]
 @[simp] theorem blkOk_ddCall (e : Node) (args : List Node) (m : String) (sp : Span) :
-    blkOk (ddCall e args m sp) = (blkOk e && blkOkL args) := by simp [ddCall]
+    blkOk cfg (ddCall e args m sp) = (blkOk cfg e && blkOkL cfg args) := by simp [ddCall]
 theorem blkOk_ddParen (e : Node) (args asg : List Node) (m : String) (sp : Span)
-    (he : blkOk e = true) (ha : blkOkL args = true) (hs : blkOkL asg = true) : blkOk (ddParen e args asg m sp) = true := by
+    (he : blkOk cfg e = true) (ha : blkOkL cfg args = true) (hs : blkOkL cfg asg = true) : blkOk cfg (ddParen e args asg m sp) = true := by
   unfold ddParen
   simp only
   split <;> simp [he, ha, hs]
-theorem blkOk_tplOperand (x : Node) : blkOk (tplOperand x) = blkOk x := by unfold tplOperand; split <;> simp
-theorem blkOk_seqOperand (x : Node) : blkOk (seqOperand x) = blkOk x := by unfold seqOperand; split <;> simp
-theorem blkOk_assignRhs (x : Node) : blkOk (assignRhs x) = blkOk x := by unfold assignRhs; split <;> simp
+theorem blkOk_tplOperand (x : Node) : blkOk cfg (tplOperand x) = blkOk cfg x := by unfold tplOperand; split <;> simp
+theorem blkOk_seqOperand (x : Node) : blkOk cfg (seqOperand x) = blkOk cfg x := by unfold seqOperand; split <;> simp
+theorem blkOk_assignRhs (x : Node) : blkOk cfg (assignRhs x) = blkOk cfg x := by unfold assignRhs; split <;> simp
 
 /-- all three components an operand-handler function returns -/
-def Blk3 (R : (Node × List Node × List Node) × St) : Prop := blkOk R.1.1 = true ∧ blkOkL R.1.2.1 = true ∧ blkOkL R.1.2.2 = true
-def Blk3L (R : (List Node × List Node × List Node) × St) : Prop := blkOkL R.1.1 = true ∧ blkOkL R.1.2.1 = true ∧ blkOkL R.1.2.2 = true
+def Blk3 (cfg : Config) (R : (Node × List Node × List Node) × St) : Prop := blkOk cfg R.1.1 = true ∧ blkOkL cfg R.1.2.1 = true ∧ blkOkL cfg R.1.2.2 = true
+def Blk3L (cfg : Config) (R : (List Node × List Node × List Node) × St) : Prop := blkOkL cfg R.1.1 = true ∧ blkOkL cfg R.1.2.1 = true ∧ blkOkL cfg R.1.2.2 = true
 
 theorem getTemporalIdent_blk (operand : Node) (asg : List Node) (sp : Span) (k : IdentKind) (s : St)
-    (ho : blkOk operand = true) (ha : blkOkL asg = true) : blkOkL (getTemporalIdent operand asg sp k s).1.2 = true := by
+    (ho : blkOk cfg operand = true) (ha : blkOkL cfg asg = true) : blkOkL cfg (getTemporalIdent operand asg sp k s).1.2 = true := by
   rcases getTemporalIdent_casesC operand asg sp k s with ⟨_, h⟩ | ⟨_, s', h, _⟩ <;> rw [h] <;> simp [ha, ho]
 
 theorem getIdentUsed_blk (operand : Node) (asg args : List Node) (sp : Span) (k : IdentKind) (s : St)
-    (ho : blkOk operand = true) (ha : blkOkL asg = true) (hg : blkOkL args = true) :
-    blkOkL (getIdentUsed operand asg args sp k s).1.2.1 = true ∧ blkOkL (getIdentUsed operand asg args sp k s).1.2.2 = true := by
+    (ho : blkOk cfg operand = true) (ha : blkOkL cfg asg = true) (hg : blkOkL cfg args = true) :
+    blkOkL cfg (getIdentUsed operand asg args sp k s).1.2.1 = true ∧ blkOkL cfg (getIdentUsed operand asg args sp k s).1.2.2 = true := by
   rcases getIdentUsed_casesC operand asg args sp k s with ⟨_, h⟩ | ⟨_, s', h, _⟩ <;> rw [h] <;> simp [ha, ho, hg]
 
 theorem replaceDefault_blk (e : Node) (asg args : List Node) (sp : Span) (k : IdentKind) (s : St)
-    (ho : blkOk e = true) (ha : blkOkL asg = true) (hg : blkOkL args = true) : Blk3 (replaceDefault e asg args sp k s) := by
+    (ho : blkOk cfg e = true) (ha : blkOkL cfg asg = true) (hg : blkOkL cfg args = true) : Blk3 cfg (replaceDefault e asg args sp k s) := by
   unfold replaceDefault Blk3
   simp only [run_bind, run_pure]
   rcases getIdentUsed_casesC e asg args sp k s with ⟨_, h⟩ | ⟨_, s', h, _⟩ <;> rw [h] <;> simp [ha, ho, hg]
 
 theorem replaceExprNoExpand_blk (e : Node) (mode : IdentMode) (asg args : List Node) (sp : Span) (k : IdentKind) (s : St)
-    (ho : blkOk e = true) (ha : blkOkL asg = true) (hg : blkOkL args = true) :
-    Blk3 (replaceExprNoExpand e mode asg args sp k s) := by
+    (ho : blkOk cfg e = true) (ha : blkOkL cfg asg = true) (hg : blkOkL cfg args = true) :
+    Blk3 cfg (replaceExprNoExpand e mode asg args sp k s) := by
   have hd := replaceDefault_blk e asg args sp k s ho ha hg
   cases e with
   | lit => simp [replaceExprNoExpand, run_pure, Blk3, ha, hg]
@@ -139,7 +140,7 @@ theorem replaceExprNoExpand_blk (e : Node) (mode : IdentMode) (asg args : List N
   | _ => simpa [replaceExprNoExpand] using hd
 
 theorem replaceArgNoExpand_blk (a : Node) (mode : IdentMode) (asg args : List Node) (sp : Span) (s : St)
-    (ho : blkOk a = true) (ha : blkOkL asg = true) (hg : blkOkL args = true) : Blk3 (replaceArgNoExpand a mode asg args sp s) := by
+    (ho : blkOk cfg a = true) (ha : blkOkL cfg asg = true) (hg : blkOkL cfg args = true) : Blk3 cfg (replaceArgNoExpand a mode asg args sp s) := by
   cases a with
   | arg spread e =>
     simp only [replaceArgNoExpand, run_bind, run_pure]
@@ -149,7 +150,7 @@ theorem replaceArgNoExpand_blk (a : Node) (mode : IdentMode) (asg args : List No
   | _ => simp only [replaceArgNoExpand, run_pure]; exact ⟨ho, ha, hg⟩
 
 theorem replaceElem_blk (a : Node) (mode : IdentMode) (asg args : List Node) (sp : Span) (s : St)
-    (ho : blkOk a = true) (ha : blkOkL asg = true) (hg : blkOkL args = true) : Blk3 (replaceElem a mode asg args sp s) := by
+    (ho : blkOk cfg a = true) (ha : blkOkL cfg asg = true) (hg : blkOkL cfg args = true) : Blk3 cfg (replaceElem a mode asg args sp s) := by
   cases a with
   | arg spread e => simp only [replaceElem]; exact replaceArgNoExpand_blk _ mode asg args sp s ho ha hg
   | _ => simp only [replaceElem, run_pure, Blk3]; simp [ho, ha, hg]
@@ -163,8 +164,8 @@ theorem listOp_blk (g : Node → List Node → List Node → M (Node × List Nod
         (step xs (g x asg args s).1.2.1 (g x asg args s).1.2.2 (g x asg args s).2).1.2.1,
         (step xs (g x asg args s).1.2.1 (g x asg args s).1.2.2 (g x asg args s).2).1.2.2),
        (step xs (g x asg args s).1.2.1 (g x asg args s).1.2.2 (g x asg args s).2).2))
-    (hg : ∀ x asg args s, blkOk x = true → blkOkL asg = true → blkOkL args = true → Blk3 (g x asg args s)) :
-    ∀ xs asg args s, blkOkL xs = true → blkOkL asg = true → blkOkL args = true → Blk3L (step xs asg args s) := by
+    (hg : ∀ x asg args s, blkOk cfg x = true → blkOkL cfg asg = true → blkOkL cfg args = true → Blk3 cfg (g x asg args s)) :
+    ∀ xs asg args s, blkOkL cfg xs = true → blkOkL cfg asg = true → blkOkL cfg args = true → Blk3L cfg (step xs asg args s) := by
   intro xs
   induction xs with
   | nil => intro asg args s _ ha hgg; rw [hnil]; exact ⟨rfl, ha, hgg⟩
@@ -176,14 +177,14 @@ theorem listOp_blk (g : Node → List Node → List Node → M (Node × List Nod
     obtain ⟨b1, b2, b3⟩ := ih _ _ (g x asg args s).2 hx.2 a2 a3
     exact ⟨by simp [a1, b1], b2, b3⟩
 
-theorem replaceElems_blk (mode : IdentMode) (sp : Span) : ∀ xs asg args s, blkOkL xs = true → blkOkL asg = true → blkOkL args = true →
-    Blk3L (replaceElems mode sp xs asg args s) :=
+theorem replaceElems_blk (mode : IdentMode) (sp : Span) : ∀ xs asg args s, blkOkL cfg xs = true → blkOkL cfg asg = true → blkOkL cfg args = true →
+    Blk3L cfg (replaceElems mode sp xs asg args s) :=
   listOp_blk (fun x asg args => replaceElem x mode asg args sp) (replaceElems mode sp)
     (by intro asg args s; rfl) (by intro x xs asg args s; simp only [replaceElems, run_bind, run_pure])
     (fun x asg args s => replaceElem_blk x mode asg args sp s)
 
 theorem replaceExpr_blk (e : Node) (mode : IdentMode) (asg args : List Node) (sp : Span) (k : IdentKind) (expand : Bool) (s : St)
-    (ho : blkOk e = true) (ha : blkOkL asg = true) (hg : blkOkL args = true) : Blk3 (replaceExpr e mode asg args sp k expand s) := by
+    (ho : blkOk cfg e = true) (ha : blkOkL cfg asg = true) (hg : blkOkL cfg args = true) : Blk3 cfg (replaceExpr e mode asg args sp k expand s) := by
   unfold replaceExpr
   split
   · simp only [run_bind, run_pure]
@@ -192,7 +193,7 @@ theorem replaceExpr_blk (e : Node) (mode : IdentMode) (asg args : List Node) (sp
   · exact replaceExprNoExpand_blk e mode asg args sp k s ho ha hg
 
 theorem replaceArg_blk (a : Node) (mode : IdentMode) (asg args : List Node) (sp : Span) (expand : Bool) (s : St)
-    (ho : blkOk a = true) (ha : blkOkL asg = true) (hg : blkOkL args = true) : Blk3 (replaceArg a mode asg args sp expand s) := by
+    (ho : blkOk cfg a = true) (ha : blkOkL cfg asg = true) (hg : blkOkL cfg args = true) : Blk3 cfg (replaceArg a mode asg args sp expand s) := by
   cases a with
   | arg spread e =>
     simp only [replaceArg, run_bind, run_pure]
@@ -201,14 +202,14 @@ theorem replaceArg_blk (a : Node) (mode : IdentMode) (asg args : List Node) (sp 
     simpa [Blk3] using this
   | _ => simp only [replaceArg, run_pure]; exact ⟨ho, ha, hg⟩
 
-theorem replaceArgs_blk (mode : IdentMode) (sp : Span) (expand : Bool) : ∀ xs asg args s, blkOkL xs = true → blkOkL asg = true →
-    blkOkL args = true → Blk3L (replaceArgs mode sp expand xs asg args s) :=
+theorem replaceArgs_blk (mode : IdentMode) (sp : Span) (expand : Bool) : ∀ xs asg args s, blkOkL cfg xs = true → blkOkL cfg asg = true →
+    blkOkL cfg args = true → Blk3L cfg (replaceArgs mode sp expand xs asg args s) :=
   listOp_blk (fun x asg args => replaceArg x mode asg args sp expand) (replaceArgs mode sp expand)
     (by intro asg args s; rfl) (by intro x xs asg args s; simp only [replaceArgs, run_bind, run_pure])
     (fun x asg args s => replaceArg_blk x mode asg args sp expand s)
 
-theorem replaceTplExprs_blk : ∀ xs asg args s, blkOkL xs = true → blkOkL asg = true → blkOkL args = true →
-    Blk3L (replaceTplExprs xs asg args s) :=
+theorem replaceTplExprs_blk : ∀ xs asg args s, blkOkL cfg xs = true → blkOkL cfg asg = true → blkOkL cfg args = true →
+    Blk3L cfg (replaceTplExprs xs asg args s) :=
   listOp_blk (fun x asg args => replaceExpr (tplOperand x) .replace asg args x.span .expr false) replaceTplExprs
     (by intro asg args s; rfl) (by intro x xs asg args s; simp only [replaceTplExprs, run_bind, run_pure])
     (fun x asg args s hx ha hg => replaceExpr_blk _ _ asg args _ _ _ s (by rw [blkOk_tplOperand]; exact hx) ha hg)
